@@ -16,6 +16,13 @@ TEXT = {
              "framing facts + byte-exact differential runs of translateData*, the framer and handleMessageData (single node and multi-node pump).",
         note=BASE_NOTE + "Assumed: highwayhash collision-free on the names in play; Go channel/map semantics. Concurrent senders are "
              "covered by the model's independence of packets (each send is its own walk), not by a schedule theorem: partial."),
+    "C12": dict(
+        text="Theorems first_match_decides / evalRules_cases / default_accept / match_iff_all_fields over the rule loop, "
+             "regex_full_match (derivative matcher proved equal to the denotational language of the pattern), parseRule_strict / "
+             "buildPat_strict / nonstring_refused (a rule that parses constrains every given field exactly; malformed input is refused), "
+             "plus witness theorems of the three repaired defects. Tie: regenerated facts (error propagation, regex wrapping, loop shape, "
+             "position before dispatch) + differential runs of ParseFirewallRules and handleMessageData with literal and regex rules.",
+        note=BASE_NOTE + "Go regexp trusted for full syntax; the correspondence uses a regex subset rendered from ASTs."),
     "C10": dict(
         text="Theorems forward_bound (at most h relays for every table assignment incl. loops), reach_iff, expiry_reporter, "
              "traceroute_path, notice_terminates over the executable model of handleMessageData/forwardMessage; tie: regenerated facts "
